@@ -110,6 +110,16 @@ LineViolations(e, c2, K2) ==
     \cup V("SyncExact", sync /\ xt # "ok", IF xt = "unexplained" THEN "" ELSE xt, [ev |-> e.ev, diff |-> OwnedDiff(K2, D)])
     \cup V("Idempotent", e.ev = "FullSync" /\ sync /\ e.tag = "again" /\ CanonK(K2) # CanonK(K),
            IF prevTag \in {"ok", "unexplained"} THEN "" ELSE prevTag, [x |-> 0])
+    \* between synchronisations the pod handlers keep the sets and the pod's own chain up to date: after a handled pod event
+    \* (all events since the last synchronisation point handled) no derived set lacks a member and the chain of the pod is exact
+    \cup V("PodEventKeepsUp",
+           e.ev \in {"UpdatePod", "DeletePod"} /\ e.tracked /\
+           (\/ \E n \in DOMAIN D.sets : n \notin DOMAIN K2.sets \/ ~(D.sets[n].members \subseteq K2.sets[n].members)
+            \/ LET pc == PodChain(e.obj) IN
+               IF pc \in DOMAIN D.chains THEN pc \notin DOMAIN K2.chains \/ BagOf(K2.chains[pc]) # BagOf(D.chains[pc])
+               ELSE pc \in DOMAIN K2.chains),
+           "", [ev |-> e.ev, obj |-> e.obj,
+                missing |-> {n \in DOMAIN D.sets : n \notin DOMAIN K2.sets \/ ~(D.sets[n].members \subseteq K2.sets[n].members)}])
     \cup (IF sync /\ xt = "ok" THEN SemanticViolations(e, c2, K2)
           ELSE IF sync THEN V("Semantics", \E f \in Flows(U) : f.src # f.dst /\ Walk(K2, U, f) # K8sAllows(c2, U, f), "notConverged:" \o xt, [x |-> 0])
           ELSE {})
